@@ -299,7 +299,10 @@ def mon_c08_start(world, kind):
         if sname not in cell.members():
             continue            # server outside the cell: nothing stays there
         app = cell.apps.get(inst)
-        if app is None:
+        if app is None or app.schedule_once:
+            # a new master terminates schedule-once instances whose server is
+            # down or was restarted (pinned by master_test.
+            # test_restore_placement): "itself removed" in the statement
             continue
         if world.truth_blacklisted(inst, app.blacklisted) or app.blacklisted:
             continue
